@@ -668,6 +668,63 @@ pub fn run(cx: &mut Cx) {
         );
     }
 
+    // D'. the line-count sweep: documents of exactly n non-blank lines for
+    //    every n up to 700 (thorough 2 100), with and without the final newline
+    //    (a reader that collects lines in batches has its seam at one count,
+    //    and the unterminated last line takes another path than the rest)
+    {
+        let top = cx.pick_tier(40usize, 300, 700, 2_100);
+        let mut r = cx.stream("line-count-sweep");
+        for n in 1..=top {
+            for unterminated in [false, true] {
+                let lines: Vec<Line> = (0..n).map(|_| if r.chance(1, 3) { gp::valid_line(&mut r) } else { gp::file_line(&mut r, 3) }).collect();
+                if !cx.mine((2 * n + unterminated as usize) as u64) {
+                    continue;
+                }
+                let mut lay = gp::layout(&mut r, lines.len(), 0);
+                lay.final_nl = !unterminated;
+                let c = build_case(&mut r, lines, lay);
+                cx.check(
+                    || describe(&format!("{n} lines, last one {}", if unterminated { "unterminated" } else { "terminated" }), &c),
+                    |ev| {
+                        ev.count("workload/line-count-sweep");
+                        check_doc(ev, &c)
+                    },
+                );
+            }
+        }
+    }
+    // D''. total length on a block boundary: the document is padded (in its
+    //    last file name, unterminated) to exactly k x 256 / 512 / 1024 / 4096
+    //    bytes, the padding being NUL bytes, blanks inside the name, or letters
+    //    (a reader that treats its input as blocks - tar padding, a C string -
+    //    shortens exactly such an input)
+    {
+        let per = cx.pick_tier(2usize, 24, 96, 400);
+        let mut r = cx.stream("block-length");
+        for k in 0..per {
+            let block = [256usize, 512, 512, 1024, 4096][k % 5];
+            let pad = [0u8, 0, b'x', b'~', 0x7f][(k / 5) % 5];
+            let mut lines: Vec<Line> = (0..r.range(1, 12)).map(|_| if r.chance(1, 3) { gp::valid_line(&mut r) } else { gp::file_line(&mut r, 3) }).collect();
+            let used: usize = lines.iter().map(|l| l.bytes.len() + 1).sum();
+            let stem = b"share/f".to_vec();
+            let total = (used + stem.len() + 1).div_ceil(block) * block;
+            let mut last = stem;
+            last.resize(total - used, pad);
+            lines.push(gp::file_line_from(last));
+            let mut lay = gp::layout(&mut r, lines.len(), 0);
+            lay.final_nl = false;
+            let c = build_case(&mut r, lines, lay);
+            cx.check(
+                || describe(&format!("document of exactly {total} bytes ending in padding byte {pad:#04x}"), &c),
+                |ev| {
+                    ev.count("workload/block-length");
+                    check_doc(ev, &c)
+                },
+            );
+        }
+    }
+
     // E. large documents: tens to hundreds of lines.
     let (lo, hi) = cx.pick_tier((13usize, 40usize), (13, 300), (13, 600), (13, 800));
     let n = cx.per_shard(8, 200, 1_600, 12_000);
